@@ -512,8 +512,14 @@ impl Report {
         let _ = std::fs::create_dir_all(&evdir);
         let evpath = evdir.join(format!("{}.json", self.property));
         let tmp = evdir.join(format!(".{}.json.tmp", self.property));
-        let _ = std::fs::write(&tmp, serde_json::to_string_pretty(&ev).unwrap());
-        let _ = std::fs::rename(&tmp, &evpath);
+        if self.frag.evaluations == 0 {
+            // nothing was evaluated (e.g. no check binary could be built): there is no
+            // coverage to describe; a stale file of an earlier run must not stand in
+            let _ = std::fs::remove_file(&evpath);
+        } else {
+            let _ = std::fs::write(&tmp, serde_json::to_string_pretty(&ev).unwrap());
+            let _ = std::fs::rename(&tmp, &evpath);
+        }
 
         let out = std::io::stdout();
         let mut out = out.lock();
